@@ -719,7 +719,33 @@ static void prop_c11(Tape &t, Result &r) {
   judge_budget(one_file(text), budget, through_compile, r);
 }
 static void json_c11(const J &c, Result &r) { judge_budget(files_of(c), (int)c.at("budget").i(), true, r); }
-static Reg reg_c11({"C11", 300, prop_c11, nullptr, json_c11});
+
+// fixed divergent sets whose stream does not grow, each also sent through compile() with its 1024 passes:
+// "an unfinished expansion is never passed on as a correct program" must hold in particular when every
+// intermediate stream is itself a valid program (then only the too-many-substitutions error stands between
+// the unfinished expansion and a "correct" result)
+static const char *DIVERGENT[] = {
+    "DEFINE x1 := 0 AS x1 := 0 END DEFINE\nx1 := 0",
+    "DEFINE STOP AS STOP END DEFINE\nx0 := 1; STOP",
+    "DEFINE <ID> := 1 AS $0 := 1 END DEFINE\nx0 := 1",
+    "DEFINE PRIO 3 A <ID> AS B $0 END DEFINE\nDEFINE PRIO 3 B <ID> AS A $0 END DEFINE\nA x",
+    "DEFINE PRIO 9 x0 := 7 AS x0 := 8 END DEFINE\nDEFINE PRIO 5 GOTO <ID> AS GOTO $0 END DEFINE\nl: x0 := 7; GOTO l",
+    "DEFINE LOOP <ID> DO AS LOOP $0 DO END DEFINE\nx0 := 2; LOOP x0 DO x1 := x1 + 1 END",
+};
+static void enum_c11(Runner &run, int shard, int nshards, const std::string &) {
+  size_t n = sizeof DIVERGENT / sizeof *DIVERGENT;
+  for (size_t i = 0; i < n; i++)
+    for (int budget : {12, 31}) {
+      if ((int)((i * 2 + (budget == 31)) % (size_t)nshards) != shard) continue;
+      glue::Files f = one_file(std::string(STD_DEFS) + DIVERGENT[i]);
+      run.journal_case(case_json(f, budget));
+      Result r;
+      judge_budget(f, budget, true, r);
+      r.cls("enum:fixed-divergent-set");
+      run.record(r);
+    }
+}
+static Reg reg_c11({"C11", 300, prop_c11, enum_c11, json_c11});
 
 // ------------------------------------------------------------------------------ C12
 static const char *P12[] = {"<ID>", "<INT>", "<V>", "<ARGS>", "<P>", ";", ",", "A", "7", "!", "END", "DO", ":="};
